@@ -27,6 +27,7 @@ TARGETS = {   # entity kind -> list of (class name stem, pybind cpp suffix, matl
     'class_full': [('Cf', '', '', 'class')],
     'tclass': [('Tc', '<double>', 'Double', 'inst')],
     'tclass2': [('Tw', '<int, double>', 'IntDouble', 'inst')],     # a C++ name with a blank in it
+    'fwdtd': [('Fw', '<int>', 'Int', 'typedef')],                  # a typedef'd forward declaration of a foreign template
     'enumclass': [('Ce', '', '', 'class')],
     'derived': [('De', '', '', 'class')],
     'noctor': [('Nc', '', '', 'class')],
@@ -44,6 +45,8 @@ def delete_target(mod, path, cname, how):
             if d['k'] == 'ns':
                 d['c'] = rec(d['c'], p + [d['n']])
                 out.append(d)
+            elif d['k'] == 'typedef' and how == 'typedef' and d['t']['q'].split('::')[-1] == cname and p == path:
+                pass        # the typedef goes, the forward declaration stays
             elif d['k'] == 'class' and d['n'] == cname and p == path:
                 if how == 'inst':
                     d['tpl'][0]['i'] = d['tpl'][0]['i'][1:]
@@ -146,22 +149,32 @@ def check_case(case):
     mod = c10.build(kinds)
     cname = stem + c10.tag(path) if stem != 'Same' else 'Same'
     text_m = D.render(mod)
-    text_del = D.render(delete_target(mod, path, cname, how))
-    py_ign = '::'.join(path + [cname]) + pysuf
-    ml_ign = '::'.join(path + [cname + mlsuf])
-    scope = 'global' if not path else 'depth%d' % len(path)
+    mod_del = delete_target(mod, path, cname, how)
+    py_ign = ['::'.join(path + [cname]) + pysuf]
+    ml_ign = ['::'.join(path + [cname + mlsuf])]
+    second = case.get('second')      # a second class to ignore, declared directly after / near the first one
+    if second:
+        s2, py2, ml2, how2 = second
+        c2 = s2 + c10.tag(path)
+        mod_del = delete_target(mod_del, path, c2, how2)
+        py_ign.append('::'.join(path + [c2]) + py2)
+        ml_ign.append('::'.join(path + [c2 + ml2]))
+    text_del = D.render(mod_del)
+    scope = ('global' if not path else 'depth%d' % len(path)) + ('|two-targets' if second else '')
     viol = []
     ctxs = 'kinds=%s target=%s (pybind ignore %r, matlab ignore %r)' % (kinds, cname, py_ign, ml_ign)
 
     def add(sig, msg):
         viol.append({'sig': sig, 'msg': '%s\n%s\n--- input ---\n%s' % (msg, ctxs, text_m)})
-    own = [cname + mlsuf, cname + pysuf, cname + pysuf.replace(' ', '')] if how == 'inst' else [cname]
+    own = [cname + mlsuf, cname + pysuf, cname + pysuf.replace(' ', '')] if how in ('inst', 'typedef') else [cname]
+    if second:
+        own = own + ([c2 + ml2, c2 + py2, c2 + py2.replace(' ', '')] if how2 in ('inst', 'typedef') else [c2])
     if cname == 'Same':
         own = None    # qualified matching, see belongs_same
     for g, blocks_fn, ign in (('pybind', py_blocks, py_ign), ('matlab', ml_blocks, ml_ign)):
         try:
             full, b_full = blocks_fn(text_m, [])
-            ig, b_ign = blocks_fn(text_m, [ign])
+            ig, b_ign = blocks_fn(text_m, list(ign))
             de, b_del = blocks_fn(text_del, [])
         except Exception as e:
             add('C15|%s|exception|%s|%s|%s' % (g, type(e).__name__, stem, scope),
@@ -187,7 +200,8 @@ def check_case(case):
                     '%s: deleting %s changes the block %s of an unrelated entity' % (g, cname, k))
         for k in sorted(set(b_del) - set(b_full)):
             add('C15|%s|new-block-after-delete|%s' % (g, stem), '%s: deleting %s creates block %s' % (g, cname, k))
-        left = [k for k in b_del if k != 'mex:Same_upcastFromVoid' and (belongs(k, own) if own is not None else belongs_same(k, path)) and not (how == 'inst')]
+        left = [k for k in b_del if k != 'mex:Same_upcastFromVoid' and (belongs(k, own) if own is not None else belongs_same(k, path)) and not (how in ('inst', 'typedef'))
+                and not (second and how2 in ('inst', 'typedef'))]
         if left:
             add('C15|%s|artefacts-left|%s' % (g, stem), '%s: artefacts of the deleted class remain: %s' % (g, left[:5]))
     return {'viol': viol}
@@ -218,11 +232,20 @@ def run(ctx):
             for stem, pysuf, mlsuf, how in TARGETS.get(k, []):
                 for path in c10.SCOPES:
                     cases.append({'kinds': kinds, 'path': path, 'stem': stem, 'pysuf': pysuf, 'mlsuf': mlsuf, 'how': how})
+    # two classes ignored at once: the targets of two kinds that follow each other in the module
+    tk = list(TARGETS)
+    for a in tk:
+        for b in tk:
+            if a != b and 'samename' not in (a, b):
+                for path in c10.SCOPES:
+                    sa, sb = TARGETS[a][0], TARGETS[b][0]
+                    cases.append({'kinds': [a, b], 'path': path, 'stem': sa[0], 'pysuf': sa[1], 'mlsuf': sa[2], 'how': sa[3],
+                                  'second': list(sb)})
     # de-duplicate (a combo may list the target kind once only, but be safe)
     seen = set()
     uniq = []
     for c in cases:
-        key = (tuple(c['kinds']), tuple(c['path']), c['stem'])
+        key = (tuple(c['kinds']), tuple(c['path']), c['stem'], tuple(c.get('second') or ()))
         if key not in seen:
             seen.add(key)
             uniq.append(c)
